@@ -38,7 +38,7 @@ def main():
                 res['unit'], res['run'], res['status'], len(res['props']), len(res['failed']),
                 res.get('canary'), res['solver_s']))
             if res['status'] != 'ok':
-                for p in res['failed'][:12]:
+                for p in res['failed'][:(400 if '--all' in sys.argv else 12)]:
                     print('   FAILED', p['id'], p['line'], p['desc'])
                 if res['status'] not in ('failed',):
                     print(res['out'][-2500:])
